@@ -2,6 +2,7 @@
 package hlib
 
 import (
+	"os"
 	"context"
 	"io"
 	"log/slog"
@@ -32,7 +33,13 @@ func DiscardLogrus() *logrus.Logger {
 
 // T.Time records its stage metric into the process-wide metrics instance, which
 // f1.New initialises; without it every T.Time call in a harness would panic.
-func init() { metrics.Init(true) }
+// (A child process that goes through f1.New itself - C16's public-API suite - opts out, because the
+// instance can be initialised only once per process.)
+func init() {
+	if os.Getenv("VERIF_NO_METRICS_INIT") == "" {
+		metrics.Init(true)
+	}
+}
 
 // StopWhenDone plays the caller's side of a pool whose contract is "call Stop
 // once the context Start returned has ended" (a refactoring may move the pool's
